@@ -61,3 +61,85 @@ Theorem C08_model_dictionary_compression_lossless : forall cfg dc p pbs ebs z re
   z_hist z = rev content ++ rev' (d_content dc) /\ z_pos z = lenN content.
 Proof. exact lz_model_lossless_dict. Qed.
 Print Assumptions C08_model_dictionary_compression_lossless.
+
+(* ==== round 2: the three places where findings of this property lived, each as a model of the mechanism with a theorem over all
+        histories / sizes and a refutation of the code as it was (fixes d50580e, 2f41a3c, dd32199) ==== *)
+From ZV.Safety Require DDictHashSet.
+From ZV.Codec Require C08Select C08DictId C08Attach.
+
+(* ZSTD_d_refMultipleDDicts: for every hash function, every history of ZSTD_DCtx_refDDict calls (any dictIDs, raw-content DDicts with
+   dictID 0 included), every active DDict and every frame dictID: never an out-of-table probe or an endless loop; the frame is decoded
+   with a DDict that carries the dictID it names, or it names none and the active DDict serves, or it is refused *)
+Theorem C08_multi_ddict_selection_names_frame_dictionary :
+  forall (h : N -> N) (l : list (N * N)) (s : DDictHashSet.hset) (active : N * N) (fid : N),
+  DDictHashSet.add_all h DDictHashSet.next_fixed l DDictHashSet.create = DDictHashSet.HOk s ->
+  match C08Select.select h s active fid with
+  | C08Select.Decode e => (fid = 0 /\ e = active) \/ (fid <> 0 /\ fst e = fid)
+  | C08Select.Refuse => fid <> 0 /\ fst active <> fid /\ DDictHashSet.spec_get l fid None = None
+  | C08Select.Broken => False
+  end.
+Proof. exact C08Select.select_names_frame_dictionary. Qed.
+Print Assumptions C08_multi_ddict_selection_names_frame_dictionary.
+
+(* ... and the frame's dictionary is found whenever it was referenced (the last DDict referenced with that dictID), whatever else the
+   table holds and whichever DDict is active *)
+Theorem C08_multi_ddict_finds_referenced_dictionary :
+  forall (h : N -> N) (l1 l2 : list (N * N)) (e active : N * N) (s : DDictHashSet.hset),
+  fst e <> 0 -> (forall x, In x l2 -> fst x <> fst e) ->
+  DDictHashSet.add_all h DDictHashSet.next_fixed (l1 ++ e :: l2) DDictHashSet.create = DDictHashSet.HOk s ->
+  C08Select.select h s active (fst e) = C08Select.Decode e.
+Proof. exact C08Select.select_finds_referenced_dictionary. Qed.
+Print Assumptions C08_multi_ddict_finds_referenced_dictionary.
+
+(* the lookup loop before fix d50580e: table {raw-content DDict, DDict 777}, frame naming dictionary 26: decoded with the raw content *)
+Theorem C08_multi_ddict_old_lookup_refuted :
+  match DDictHashSet.add_all DDictHashSet.xxh_hash DDictHashSet.next_fixed [(0, 7); (777, 2)] DDictHashSet.create with
+  | DDictHashSet.HOk s => C08Select.select_old DDictHashSet.xxh_hash s (777, 2) 26 = C08Select.Decode (0, 7) /\
+                          C08Select.select DDictHashSet.xxh_hash s (777, 2) 26 = C08Select.Refuse
+  | _ => False
+  end.
+Proof. exact C08Select.select_old_refuted. Qed.
+Print Assumptions C08_multi_ddict_old_lookup_refuted.
+
+(* "frames record the dictionary's ID unless told not to": every history of dictIDFlag changes, dictionary loads, CDict references
+   (digested under any flag), prefixes, unloads and frames on one context - each header carries the ID of the dictionary the frame
+   was compressed with, or 0 when the flag in force for that frame is 0 *)
+Theorem C08_dictid_recorded_all_histories : forall (l : list C08DictId.op),
+  Forall C08DictId.truthful (C08DictId.run true C08DictId.init l).
+Proof. exact C08DictId.dictid_recorded_from_fresh_context. Qed.
+Print Assumptions C08_dictid_recorded_all_histories.
+
+(* before fix 2f41a3c: flag off, load dictionary 5, frame, flag on, frame -> the second header carries no ID *)
+Theorem C08_dictid_recorded_refuted_before_fix :
+  C08DictId.run false C08DictId.init [C08DictId.SetIdFlag false; C08DictId.Load 5; C08DictId.Compress; C08DictId.SetIdFlag true; C08DictId.Compress] =
+    [{| C08DictId.e_header := 0; C08DictId.e_flag := false; C08DictId.e_used := 5 |};
+     {| C08DictId.e_header := 0; C08DictId.e_flag := true; C08DictId.e_used := 5 |}].
+Proof. exact (proj1 C08DictId.dictid_recorded_refuted_before_fix). Qed.
+Print Assumptions C08_dictid_recorded_refuted_before_fix.
+
+(* attached CDict: for every content size, strategy class (tagged tables or not), repeat offsets the loader admits and position of the
+   block, the index probed for a repeat offset does not wrap and lies inside dictionary + prefix, given the decision of
+   ZSTD_shouldAttachDict since fix dd32199 *)
+Theorem C08_attach_rep_index_in_range : forall tagged content reps r curr,
+  C08Attach.loader_ok content reps -> C08Attach.may_attach true tagged content reps = true -> In r reps ->
+  C08Attach.prefix_start tagged content <= curr -> curr + 1 < C08Attach.U32 ->
+  C08Attach.rep_index curr r = curr + 1 - r /\ C08Attach.dict_start < C08Attach.rep_index curr r <= curr.
+Proof. exact C08Attach.attach_rep_index_in_range. Qed.
+Print Assumptions C08_attach_rep_index_in_range.
+
+(* the copy path taken instead: an offset beyond the reachable history is zeroed before the first probe *)
+Theorem C08_copy_rep_sanitized : forall windowLow curr rep,
+  windowLow <= curr -> curr + 1 < C08Attach.U32 ->
+  let r := C08Attach.sanitize (curr - windowLow) rep in
+  r = 0 \/ (C08Attach.rep_index curr r = curr + 1 - r /\ windowLow < C08Attach.rep_index curr r).
+Proof. exact C08Attach.copy_rep_sanitized. Qed.
+Print Assumptions C08_copy_rep_sanitized.
+
+(* before the fix: content 17,000,000, repeat offset = content size, tagged tables: attached, and the probe index wraps to 4294744513 *)
+Theorem C08_attach_refuted_before_fix :
+  C08Attach.loader_ok 17000000 [17000000; 4; 8] /\ C08Attach.may_attach false true 17000000 [17000000; 4; 8] = true /\
+  let curr := C08Attach.prefix_start true 17000000 in
+  C08Attach.rep_index curr 17000000 = 4294744513 /\ curr < C08Attach.rep_index curr 17000000 /\
+  3 <= (C08Attach.prefix_start true 17000000 - 1 + C08Attach.U32 - C08Attach.rep_index curr 17000000) mod C08Attach.U32.
+Proof. exact C08Attach.attach_refuted_before_fix. Qed.
+Print Assumptions C08_attach_refuted_before_fix.
